@@ -46,7 +46,8 @@ struct Explorer {
         trace.push_back({n, kind, c});
         return c;
     }
-    void begin(const std::vector<int> &pfx, const std::vector<Point> &exp) { prefix = pfx; expect = exp; trace.clear(); active = true; }
+    // trace is pre-reserved so that choose() never allocates (harnesses that own the heap layout rely on it)
+    void begin(const std::vector<int> &pfx, const std::vector<Point> &exp) { prefix = pfx; expect = exp; trace.clear(); if (trace.capacity() < 65536) trace.reserve(65536); active = true; }
     void end() { active = false; }
     static std::string str(const std::vector<Point> &t) {
         std::string s;
